@@ -25,15 +25,17 @@ COQ_IMPORTS = ("From Coq Require Import List ZArith Bool.\n"
                "From PV Require Import Np.NpZ Gen.GenUtils Model.C19Guards.\nLocal Open Scope Z_scope.\n")
 RULE = ("malformed stream: per operation and per precondition, descriptors violating exactly that precondition over a pool of "
         "shapes (distinct sizes, cubical, singleton modes, 1-way, 2-way) incl. length-1 vectors, swapped matrix dims, short "
-        "factor lists, repeated/negative/out-of-range modes, non-permutations, wrong-count reshapes, inconsistent components, "
-        "bad options; plus well-formed controls. non-trivial = the case violates a precondition (controls are trivial); "
+        "factor lists, repeated/negative/out-of-range modes, non-permutations (too short, over-long with repeats that still mention "
+        "every mode, shifted, negative, empty), size tuples rearranged or re-factored with the same product (ttv/ttm/mttkrp), "
+        "wrong-count reshapes, inconsistent components, bad options; plus well-formed controls. non-trivial = the case violates a precondition (controls are trivial); "
         "distinct = distinct (op, descriptor)")
 EXPLANATION = ("Theorems: for every covered operation guard_<op> (transliteration of the checks the code performs, numpy's "
                "implicit checks and early returns included; mode selection is the tt_dimscheck regenerated from "
-               "pyttb_utils.py on this run) rejects exactly when pre_<op> fails; where the code is weaker the full statement "
-               "is refuted by a witness and the partial version is proved. Correspondence: pyttb vs guard_<op> and pre_<op> on "
-               "the malformed stream (Rejected = any exception before a value is returned), receiver snapshot compared "
-               "byte-for-byte.")
+               "pyttb_utils.py on this run) rejects exactly when pre_<op> fails (guard = decide pre, for all arguments); where the "
+               "code is still weaker (open findings) the full statement is refuted by a witness and the partial version is proved. "
+               "Correspondence: pyttb vs guard_<op> and pre_<op> on the malformed stream (Rejected = any exception before a value is "
+               "returned), receiver snapshot compared byte-for-byte; exactly one behaviour is accepted per request (inside the "
+               "trigger of an open finding pyttb is compared with the precondition alone and the mismatch attributed).")
 CORRESPONDENCE_ONLY = sorted(n for n in O.OPS if n not in O.PROVED)
 ASSUMPTIONS = ["which exception type is raised is not part of the property and is not compared",
                "guard_<op> is a hand transliteration of the checks (tied to the code by the correspondence stream only, "
